@@ -33,6 +33,20 @@ let op_session args = match args with
     let p = prof () in
     let rec go s steps acc = match steps with
       | [] -> List.rev acc
+      | st :: tl when String.length st > 2 && String.sub st 0 2 = "Q:" ->
+        (* Q:<frame>,<frame>,..  all frames are already in the transport; one read per frame (deframing is exact: C13);
+           one aggregated token: first non-ok result, everything written, every event *)
+        let frames = String.split_on_char ',' (String.sub st 2 (String.length st - 2)) in
+        let rec reads s fs res wire evs = match fs with
+          | [] -> (s, res, wire, evs)
+          | f :: ftl ->
+            let r = do_op p s (OpRead (parse_bytes f)) in
+            let rs = res_str r.r_out in
+            let wire' = wire @ List.concat r.r_wire and evs' = evs @ r.r_events in
+            if rs <> "ok" then (r.r_session, rs, wire', evs') else reads r.r_session ftl rs wire' evs' in
+        let (s', res, w, evs) = reads s frames "ok" [] [] in
+        let line = Printf.sprintf "%s|w=%s|ev=%d%s" res (wire w) (List.length evs) (String.concat "" (List.map ev_str evs)) in
+        if res = "panic" || res = "spin" then List.rev (line :: acc) else go s' tl (line :: acc)
       | st :: tl ->
         let r = do_op p s (parse_step st) in
         let res = res_str r.r_out in
